@@ -10,12 +10,21 @@ Line-protocol driver for the legacy-listener model (property C16).
               replaces items by equal clones; identity is all the listener may use, so the
               model ignores the flag)
   arity  :=  0 | 3 | 4                     (signature of the on_trait_change handler)
-  link   :=  ('c'|'k'|'b')('.'|':')        (child / kids / byname, connector after it)
+  link   :=  ('c'|'k'|'b'|'s')('.'|':')    (child / kids / byname / group [a Set], connector after it)
   final  :=  'v' | 'x'                     (value / aux)
   op     :=  sc o f | sk o n | ap o | in o i | dl o i | si o i | sl o i j n | cl o
            | sb o key* | ds o key | du o key* | di o key* | sd o key | dd o key | dp o key | dq o | dc o
            | rv o | so o | ro o | kp o d n | kc o d n | kr o | bd o d
+           | ss o n | ga o | gu o n | gr o i | gx o i | gc o | xa o a | xr o a
            | pv o | px o | rg | rm
+            (Set link: ss = o.group = {n fresh}, ga = group.add(N()), gu = group |= {n fresh},
+             gr = group.remove(i-th member), gx = group ^= {i-th member, N()} (ONE event: removed + added),
+             gc = group.clear(); the i-th member is counted in insertion order, which the implementation
+             side mirrors;
+             detached containers: xa o a = a fresh object is put into the container that attribute a
+             ('k'|'b'|'s') of o held before its last reassignment (kept by the caller); xr o a = an object is
+             taken out of that container.  A detached container sends no event: the fresh object is
+             allocated and referenced from nowhere (`Op.stray`))
             (du = update, di = `|=`, sd = setdefault, dp = pop, dq = popitem, si = kids[i] = N();
              carry-over operations: rv = kids.reverse(), so = kids.sort(key giving the reversed order),
              ro = kids[:] = kids[1:] + kids[:1], kp = kids[:] = kids[d:] + n fresh,
@@ -41,7 +50,8 @@ def parseLink (s : String) : Option Link :=
   match s.toList with
   | [a, c] =>
     let attr := match a with
-      | 'c' => some Attr.child | 'k' => some Attr.kids | 'b' => some Attr.byname | _ => none
+      | 'c' => some Attr.child | 'k' => some Attr.kids | 'b' => some Attr.byname
+      | 's' => some Attr.group | _ => none
     let notify := match c with | '.' => some true | ':' => some false | _ => none
     match attr, notify with
     | some a, some n => some ⟨a, n⟩
@@ -79,6 +89,10 @@ inductive LOp where
   | setdefault (o k : Nat)
   | pop (o k : Nat)
   | popitem (o : Nat)
+  | gadd (o n : Nat)
+  | gremove (o i : Nat) (n : Nat)
+  | gclear (o : Nat)
+  | stale (o n : Nat)
   | bad
 
 def nat? (s : String) : Option Nat := (clean s).toNat?
@@ -119,6 +133,17 @@ def parseOp (s : String) : LOp :=
     | some o, some d, some n => .carry (.rearrange o d 0 n false) | _, _, _ => .bad
   | ["kr", o] => match nat? o with | some o => .carry (.rearrange o 0 1 0 false) | _ => .bad
   | ["bd", o, d] => match nat? o, nat? d with | some o, some d => .carry (.dictCarry o d) | _, _ => .bad
+  | ["ss", o, n] => match nat? o, nat? n with
+    | some o, some n => .op (.setGroup o n) | _, _ => .bad
+  | ["ga", o] => match nat? o with | some o => .gadd o 1 | _ => .bad
+  | ["gu", o, n] => match nat? o, nat? n with | some o, some n => .gadd o n | _, _ => .bad
+  | ["gr", o, i] => match nat? o, nat? i with | some o, some i => .gremove o i 0 | _, _ => .bad
+  | ["gx", o, i] => match nat? o, nat? i with | some o, some i => .gremove o i 1 | _, _ => .bad
+  | ["gc", o] => match nat? o with | some o => .gclear o | _ => .bad
+  | ["xa", o, a] => match nat? o with
+    | some o => if ["k", "b", "s"].contains a then .stale o 1 else .bad | _ => .bad
+  | ["xr", o, a] => match nat? o with
+    | some o => if ["k", "b", "s"].contains a then .stale o 0 else .bad | _ => .bad
   | ["rg"] => .op .reg
   | ["rm"] => .op .unreg
   | _ => .bad
@@ -139,15 +164,21 @@ def resolve (eq : Bool) (h : Heap) : LOp → Option Op
   | .popitem o => match (h.obj o).byname.getLast? with
     | some e => some (.dictDel o e.1)
     | none => none
+  | .gadd o n => let l := (h.obj o).group.length; some (.gsplice o l l n)
+  | .gremove o i n => if i < (h.obj o).group.length then some (.gsplice o i (i + 1) n) else none
+  | .gclear o => some (.gsplice o 0 (h.obj o).group.length 0)
+  | .stale o n => if o < h.next then some (.stray n) else none
   | .bad => none
 
 def traitName : Trait → String
   | .link .child => "c" | .link .kids => "k" | .link .byname => "b"
-  | .items .child => "ci" | .items .kids => "ki" | .items .byname => "bi"
+  | .link .group => "s"
+  | .items .child => "ci" | .items .kids => "ki" | .items .byname => "bi" | .items .group => "si"
   | .final .value => "v" | .final .aux => "x"
 
 def traitOrder : List Trait :=
-  [.link .child, .link .kids, .items .kids, .link .byname, .items .byname, .final .value, .final .aux]
+  [.link .child, .link .kids, .items .kids, .link .byname, .items .byname, .link .group, .items .group,
+   .final .value, .final .aux]
 
 def showCalls (cs : List Call) : String :=
   if cs.isEmpty then "-" else ",".intercalate (cs.map (fun c => s!"{c.1}.{traitName c.2}"))
